@@ -22,7 +22,8 @@ def st (ev : Value) : St :=
 
 theorem conforms_st (ev : Value) (h1 : mem ev anyObj = true) (h2 : ev.Sorted = true) : Conforms (st ev) T0 :=
   ⟨rfl, (by intro n d h; simp [T0, TState.getVar, Locals.get] at h), h1, h2,
-    (by show mem (.obj .nil) anyObj = true; decide), (by show (Value.obj .nil).Sorted = true; decide)⟩
+    (by show mem (.obj .nil) anyObj = true; decide), (by show (Value.obj .nil).Sorted = true; decide),
+    (by intro n v h; simp [st, St.getVar] at h)⟩
 
 /-- D_del_typing: `del(x.a)` leaves type and constant of `x`
 ```
